@@ -266,6 +266,72 @@ class _FieldSlot:
         self.obj["#%d" % self.idx] = v
 
 
+class Sym:
+    """a boolean formula over equality atoms between opaque values: ("atom", a, b) | ("not", f) | ("and", f, g) | ("or", f, g)"""
+    __slots__ = ("f",)
+
+    def __init__(self, f):
+        self.f = f
+
+    def __bool__(self):
+        raise Undecidable("branch on a symbolic condition")
+
+    def __repr__(self):
+        return "Sym%r" % (self.f,)
+
+
+def s_not(x):
+    if isinstance(x, Sym):
+        return Sym(x.f[1]) if x.f[0] == "not" else Sym(("not", x.f))
+    return not x
+
+
+def s_and(a, b):
+    if not isinstance(a, Sym):
+        return b if a else False
+    if not isinstance(b, Sym):
+        return a if b else False
+    return Sym(("and", a.f, b.f))
+
+
+def s_or(a, b):
+    if not isinstance(a, Sym):
+        return True if a else b
+    if not isinstance(b, Sym):
+        return True if b else a
+    return Sym(("or", a.f, b.f))
+
+
+def sym_required(f, want=True, out=None):
+    """the equalities [(a, b)] that must all hold for formula f to have the truth value `want`; raises Undecidable when that
+    condition is not a plain conjunction of equalities (a disjunction or an inequality would be needed)"""
+    out = [] if out is None else out
+    k = f[0]
+    if k == "atom":
+        if not want:
+            raise Undecidable("an inequality is required")
+        out.append((f[1], f[2]))
+    elif k == "not":
+        sym_required(f[1], not want, out)
+    elif k == "and":
+        if not want:
+            raise Undecidable("a disjunction is required")
+        sym_required(f[1], True, out)
+        sym_required(f[2], True, out)
+    elif k == "or":
+        if want:
+            raise Undecidable("a disjunction is required")
+        sym_required(f[1], False, out)
+        sym_required(f[2], False, out)
+    return out
+
+
+class Cycle:
+    """`iter.cycle()` of a finite sequence (only consumable through zip with a finite one)"""
+    def __init__(self, items):
+        self.items = list(items)
+
+
 def strip_keep_deref(e):
     return e
 
@@ -285,6 +351,8 @@ class Folder:
         self.opaque_consts = False      # associated constants of generic parameters (M::HIGH) become opaque tokens
         self.views = False              # sub-slices as write-through views (only needed when code stores through slices)
         self.max_iter = 4096
+        self.sym_eq = None              # (a, b) -> bool: an equality test between these opaque values yields a symbolic boolean (Sym)
+        self.path = []                  # symbolic conditions that had to be true to get past an early `return Err(..)`
         self.effects = effects  # loop-free statement execution (let mut, assignment, early return)
         self.facts = facts
         self.env = dict(env or {})
@@ -297,8 +365,12 @@ class Folder:
         c = self.facts.consts.get(node["def"])
         if c is not None and "val" in c:
             return c["val"]
+        last = str(node.get("def", "?")).split("::")[-1]
+        if getattr(self, "const_values", None) and last in self.const_values:
+            # associated constants of a generic parameter, instantiated by the client (e.g. M = bool: HIGH = true, LOW = false)
+            return self.const_values[last]
         if self.opaque_consts:
-            return Token(str(node.get("def", "?")).split("::")[-1])
+            return Token(last)
         raise Undecidable("constant %s has no value" % node.get("def"))
 
     def fold(self, e):
@@ -352,6 +424,8 @@ class Folder:
         if k == "Unary":
             v = self.fold(e["arg"])
             if e["op"] == "Not":
+                if isinstance(v, Sym):
+                    return s_not(v)
                 if isinstance(v, bool):
                     return not v
                 if not isinstance(v, int):
@@ -363,6 +437,11 @@ class Folder:
             raise Undecidable("unary " + e["op"])
         if k == "Logical":
             a = self.fold(e["lhs"])
+            if isinstance(a, Sym):
+                # the right operand is evaluated although the left one may decide at run time: it is a pure test here, and a trap
+                # in it is reported (conservatively) as if it were reached
+                b = self.fold(e["rhs"])
+                return s_and(a, b) if e["op"] == "And" else s_or(a, b)
             if e["op"] == "And":
                 return a and self.fold(e["rhs"])
             return a or self.fold(e["rhs"])
@@ -397,6 +476,8 @@ class Folder:
             return None
         if k == "If":
             c = self.fold(e["cond"])
+            if isinstance(c, Sym):
+                return self._sym_branch(e, c)
             if not isinstance(c, (bool, int)) or isinstance(c, Token):
                 raise Undecidable("branch on an opaque value")
             if c:
@@ -645,6 +726,9 @@ class Folder:
         args = [self.fold(a) for a in e["args"]]
         env = {}
         sub = Folder(self.facts, env=env, on_call=self.on_call, effects=True, local_calls=self.local_calls - 1)
+        if self.sym_eq is not None:
+            sub.sym_eq, sub.path, sub.opaque_consts, sub.views, sub.max_iter = self.sym_eq, self.path, self.opaque_consts, self.views, self.max_iter
+            sub.const_values = getattr(self, "const_values", None)
         for p, v in zip(body["params"], args):
             if not p.get("pat"):
                 raise Undecidable("parameter without pattern")
@@ -754,7 +838,7 @@ class Folder:
             if plain(x) and plain(y) and type(x) == type(y):
                 o = ordering((x > y) - (x < y))
                 return o if last == "cmp" else {"__adt__": "core::option::Option", "__variant__": "Some", "#0": o, "0": o}
-        if last in ("eq", "ne") and "cmp::PartialEq" in cc and len(a) == 2:
+        if last in ("eq", "ne") and ("cmp::PartialEq" in cc or cc.startswith(("core::array::equality::", "core::slice::cmp::"))) and len(a) == 2:
             def valuelike(v):
                 if isinstance(v, Token):
                     return False
@@ -775,6 +859,9 @@ class Folder:
             x, y = self.fold(a[0]), self.fold(a[1])
             if valuelike(x) and valuelike(y):
                 return (norm(x) == norm(y)) == (last == "eq")
+            if self.sym_eq is not None:
+                r = self._opaque_eq(x, y)
+                return r if last == "eq" else s_not(r)
         if cc.startswith(("core::option::Option", "core::result::Result")) and last in ("map", "map_or", "map_or_else", "and_then", "unwrap_or_else", "copied", "cloned", "or", "is_some_and", "ok", "unwrap_or_default"):
             v = self.fold(a[0])
             if isinstance(v, dict) and v.get("__variant__") in ("Some", "None", "Ok", "Err"):
@@ -1022,13 +1109,15 @@ class Folder:
                 raise Trap("unwrap/expect on %s at %s" % (v["__variant__"], span_str(e["span"])))
             return NotImplemented
         if last in ("find", "position", "any", "all", "map", "filter", "rev", "len", "count", "skip", "take", "last", "next_back",
-                    "contains", "first", "nth", "enumerate", "is_empty", "get", "find_map", "step_by", "zip", "chain", "collect", "sum"):
+                    "contains", "first", "nth", "enumerate", "is_empty", "get", "find_map", "step_by", "zip", "chain", "collect", "sum", "cycle"):
             v = self.fold(a[0])
             seq = self._iterable(v)
             if seq is None:
                 return NotImplemented
             if last in ("len", "count") and len(a) == 1:
                 return len(seq)
+            if last == "cycle" and len(a) == 1:
+                return Cycle(seq)
             if last == "is_empty" and len(a) == 1:
                 return not seq
             if last == "collect" and len(a) == 1:
@@ -1056,6 +1145,8 @@ class Folder:
                 other = self._iterable(arg)
                 if other is not None:
                     return list(seq) + list(other)
+            if last == "zip" and isinstance(arg, Cycle) and arg.items:
+                return [(x, arg.items[i % len(arg.items)]) for i, x in enumerate(seq)]
             if last == "zip":
                 other = self._iterable(arg)
                 if other is not None:
@@ -1088,9 +1179,19 @@ class Folder:
                             return opt(i)
                     return opt(None, False)
                 if last == "any":
-                    return any(self.apply_closure(arg, [x]) for x in seq)
+                    acc = False
+                    for x in seq:
+                        acc = s_or(acc, self.apply_closure(arg, [x]))
+                        if acc is True:
+                            return True
+                    return acc
                 if last == "all":
-                    return all(self.apply_closure(arg, [x]) for x in seq)
+                    acc = True
+                    for x in seq:
+                        acc = s_and(acc, self.apply_closure(arg, [x]))
+                        if acc is False:
+                            return False
+                    return acc
                 if last == "map":
                     return [self.apply_closure(arg, [x]) for x in seq]
                 if last == "filter":
@@ -1220,12 +1321,68 @@ class Folder:
             raise Trap("arithmetic overflow (%s = %d) at %s" % (e["ty"], v, span_str(e["span"])))
         return v
 
+    def _opaque_eq(self, a, b):
+        """equality of two values of which at least one is opaque: the same token is equal to itself; otherwise symbolic when
+        the client declared this pair comparable (sym_eq), else not decidable"""
+        a, b = _loaded(a), _loaded(b)
+        if isinstance(a, (list, tuple)) and isinstance(b, (list, tuple)):
+            if len(a) != len(b):
+                return False
+            acc = True
+            for x, y in zip(a, b):
+                acc = s_and(acc, self._opaque_eq(x, y))
+                if acc is False:
+                    return False
+            return acc
+        if isinstance(a, Token) and isinstance(b, Token) and str(a) == str(b):
+            return True
+        if isinstance(a, Token) or isinstance(b, Token):
+            if self.sym_eq is not None and self.sym_eq(a, b):
+                return Sym(("atom", a, b))
+            raise Undecidable("comparison of an opaque value")
+        if isinstance(a, (int, bool, str)) and isinstance(b, (int, bool, str)):
+            return a == b
+        raise Undecidable("comparison of an opaque value")
+
+    def _sym_branch(self, e, c):
+        """`if <symbolic> { .. }`: decidable when exactly one side is nothing but `return Err(..)` - the run continues on the
+        other side, and the condition under which it does is recorded in self.path"""
+        def bare_err_return(br):
+            n = br
+            for _ in range(6):
+                if n is None:
+                    return None
+                k = n.get("k")
+                if k in ("Scope", "Use", "NeverToAny", "Coerce") or (k == "Block" and not n.get("stmts") and "expr" in n):
+                    n = n.get("expr") if k == "Block" else n.get("value") or n.get("arg") or n.get("expr")
+                    continue
+                if k == "Block" and len(n.get("stmts", [])) == 1 and "expr" not in n and n["stmts"][0].get("k") == "Expr":
+                    n = n["stmts"][0]["expr"]
+                    continue
+                break
+            n = strip(n) if n is not None else None
+            if n is not None and n.get("k") == "Return" and "value" in n:
+                v = self.fold(n["value"])
+                if isinstance(v, dict) and v.get("__variant__") == "Err":
+                    return v
+            return None
+        t_err = bare_err_return(e["then"])
+        e_err = bare_err_return(e["else"]) if "else" in e else None
+        if t_err is not None and e_err is None:
+            self.path.append((s_not(c), t_err))
+            return self.fold(e["else"]) if "else" in e else None
+        if e_err is not None and t_err is None:
+            self.path.append((c, e_err))
+            return self.fold(e["then"])
+        raise Undecidable("branch on a symbolic condition")
+
     def _bin(self, op, a, b, e):
         a, b = _loaded(a), _loaded(b)
         if op not in ("Eq", "Ne") and not (isinstance(a, (int, bool)) and isinstance(b, (int, bool))):
             raise Undecidable("arithmetic on an opaque value")
         if op in ("Eq", "Ne") and (isinstance(a, Token) or isinstance(b, Token)):
-            raise Undecidable("comparison of an opaque value")
+            r = self._opaque_eq(a, b)
+            return r if op == "Eq" else s_not(r)
         if op == "Add":
             return self._chk(a + b, e)
         if op == "Sub":
